@@ -1116,5 +1116,43 @@ pub fn gen(tier: &str, seed: u64) -> Vec<String> {
     }
     // F. SubsetMap directly
     out.extend(gen_ssm(&mut r, thorough));
+    // G. a key typed under shift AND altgr right after a smart space was sent (zch_press_key: the
+    // punctuation lookup with the key classified `ShiftAltGr`, and its three neighbours), with
+    // punctuation lists that do and do not hold that form of the key; modifiers pressed before or
+    // after the chord; both smart-space modes
+    {
+        let lines = vec![Line { chords: vec![vec![30, 48]], outs: vec![Out { kind: 0, code: 45 }] }];
+        for mods in [vec![K_LSFT, K_RALT], vec![K_RALT, K_RSFT], vec![K_RALT], vec![K_LSFT]] {
+            for pn in [None, Some(vec![Out { kind: 3, code: 52 }]), Some(vec![Out { kind: 0, code: 52 }, Out { kind: 2, code: 52 }]), Some(vec![Out { kind: 1, code: 52 }, Out { kind: 3, code: 30 }])] {
+                for ss in [1u8, 2] {
+                    for key in [52u16, 30] {
+                        for mods_first in [false, true] {
+                            let mut hist = vec![];
+                            let press_mods = |h: &mut Vec<Ev>| {
+                                for m in &mods {
+                                    h.push(Ev::P(*m));
+                                    h.push(Ev::T(2));
+                                }
+                            };
+                            if mods_first {
+                                press_mods(&mut hist);
+                            }
+                            hist.extend([Ev::P(30), Ev::P(48), Ev::T(5), Ev::R(30), Ev::R(48), Ev::T(5)]);
+                            if !mods_first {
+                                press_mods(&mut hist);
+                            }
+                            hist.extend([Ev::P(key), Ev::T(3), Ev::R(key), Ev::T(3)]);
+                            for m in mods.iter().rev() {
+                                hist.push(Ev::R(*m));
+                                hist.push(Ev::T(2));
+                            }
+                            hist.push(Ev::T(30));
+                            out.push(case_line(&Case { we: 40, dl: 50, ss, pn: pn.clone(), lines: lines.clone(), hist }));
+                        }
+                    }
+                }
+            }
+        }
+    }
     out
 }
